@@ -559,6 +559,21 @@ func checkC13(e *Env) {
 				}
 				continue
 			}
+			if strings.HasPrefix(inf, "err") {
+				// an error value returned earlier: its text must still be what it was
+				var ei int
+				fmt.Sscanf(inf[:k], "err%d", &ei)
+				if ei < 0 || ei >= len(res) || res[ei].Err == nil {
+					continue
+				}
+				obs.Inc("retained_error_values_reread")
+				h := sha256.Sum256(unhex(res[ei].Err.Msg))
+				if hx(h[:]) != inf[k+1:] {
+					e.Violate(&Violation{What: fmt.Sprintf("sequence %s: the error value returned by call %d (%s: %q) reads differently at the end of the sequence: a later call altered it", tag, ei, fnName(g.ops[ei].Fn), errText(res[ei].Err)), Ops: g.ops, Detail: "error values are retained by the child and their Error() text is read again after the last call"})
+					return
+				}
+				continue
+			}
 			var i int
 			fmt.Sscanf(inf[:k], "%d", &i)
 			obs.Inc("retained_results_reread")
